@@ -210,7 +210,11 @@ Fixpoint mon_fail_index (n : nat) (m : Z) (s : mon) (i : Z) (tr : list (cop * bh
                                                      a single address; flag = the answer
    The two counters are shared by a read-write and a read-only detector, as in a
    real node (main swarm and the AutoNAT dialer swarm).
-   cls = pub + 2*udp + 4*ip6 ; flag 1 = valid, 0 = black-holed;
+   cls = pub + 2*udp + 4*ip6 (+ 8: the address is also a /p2p-circuit address whose relay hop
+         is the transport address the three bits describe; bit 3 only tells the replay which
+         address to rebuild and is ignored here: FilterAddrs and RecordResult both classify an
+         address by its outer transport address, circuit or not);
+   flag 1 = valid, 0 = black-holed;
    OBS = ust ureq uwl usucc vst vreq vwl vsucc : state (0/1/2, 9 = nil counter)
          and internals of the udp / ipv6 counter after the op. *)
 Definition addr_of_cls (id : nat) (z : Z) : addr :=
